@@ -24,6 +24,19 @@ RULE = ("case = a history of 3-4 calls drawn from preprocess_ts (all option comb
         "(topology hash, history); non-trivial = history of >=3 calls judged")
 
 
+_COMMON = {"mutation_rate", "recombination_rate", "time_units", "progress", "population_size"}
+_DISC = _COMMON | {"eps", "num_threads", "probability_space", "cache_inside"}
+ALLOWED = {
+    "variational_gamma": _COMMON | {"max_iterations", "max_shape", "rescaling_intervals", "rescaling_iterations",
+                                    "match_segregating_sites", "regularise_roots", "singletons_phased"},
+    "inside_outside": _DISC | {"outside_standardize", "ignore_oldest_root"},
+    "maximization": _DISC,
+    "preprocess_ts": {"minimum_gap", "erase_flanks", "split_disjoint", "filter_populations", "filter_individuals",
+                      "filter_sites", "delete_intervals"},
+    "split_disjoint_nodes": set(),
+}
+
+
 def prov_rows(ts):
     return [(p.timestamp, p.record) for p in ts.provenances()]
 
@@ -65,6 +78,13 @@ def judge(rec, before, after, recording, command, params, label):
         want = json.loads(json.dumps(want, default=lambda o: o.tolist() if hasattr(o, "tolist") else float(o)))
         if pr[k] != want:
             rec.violation(f"{label}:parameter-value:{k}", f"{command}: {k} recorded as {pr[k]!r}, passed {want!r}")
+    # the record describes THIS call: no parameter that belongs to another command
+    allowed = ALLOWED.get(command)
+    if allowed is not None:
+        foreign = sorted(set(pr) - allowed - {"command"})
+        if foreign:
+            rec.violation(f"{label}:foreign-parameters-in-record",
+                          f"{command}: the record lists parameters this call does not take: {foreign}")
     rec.count("records_validated")
 
 
